@@ -37,7 +37,7 @@ func TestReplay_NumericLiterals(t *testing.T) {
 				t.Errorf("FAILING INPUT: Lit(float64(%v)) renders %q with value %v", v, src, got)
 			}
 		}
-		sized := []interface{}{float32(1.5), float32(1e10), int8(-128), int16(300), int32(-7), int64(math.MinInt64), uint(7), uint8(255), uint16(9), uint32(4e9), uint64(math.MaxUint64), uintptr(12), complex64(complex(1, -2)), complex(2.5, 1e21), true, false, 42, -42}
+		sized := []interface{}{float32(1.5), float32(1e10), int8(-128), int16(300), int32(-7), int64(math.MinInt64), uint(7), uint8(255), uint16(9), uint32(4e9), uint64(math.MaxUint64), uintptr(12), complex64(complex(1, -2)), complex(2.5, 1e21), true, false, 42, -42, math.MaxInt32, math.MaxInt32 + 1, math.MinInt32 - 1, 1 << 40, math.MaxInt64, math.MinInt64, int64(1 << 40), uint32(0), int32(math.MinInt32)}
 		for _, v := range sized {
 			src := fmt.Sprintf("%#v", lit(v))
 			tv, err := evalConst(t, src)
@@ -130,7 +130,7 @@ func codeTokens(src string) []string {
 }
 
 func TestReplay_Comments(t *testing.T) {
-	texts := []string{"plain", "x = 2", "\nx = 2", "a\nb", "a\nb\n", "\n", "}", "{", "\"", "`", "é", "trailing \\", "*", "/", "a\n\nb", "\nx = 2\nx = 3", " leading space", "func main() {}"}
+	texts := []string{"plain", "x = 2", "\nx = 2", "a\nb", "a\nb\n", "\n", "}", "{", "\"", "`", "é", "trailing \\", "*", "/", "a\n\nb", "\nx = 2\nx = 3", " leading space", "func main() {}", " // note\nreturn 2", "\t//go:noinline\nx = 9", "  /* open", " /* a */ x = 1", "x // y\nz = 1"}
 	for _, text := range texts {
 		with := NewFile("p")
 		with.Func().Id("m").Params().Block(Id("a").Op(":=").Lit(1), Comment(text), Id("b").Op(":=").Lit(2).Comment(text))
